@@ -499,6 +499,145 @@ def oracle_C12(run):
 
 
 # ---------------------------------------------------------------------------
+# C11  settings take effect when acknowledged, one frame per ACK, in order
+# ---------------------------------------------------------------------------
+def _settings_frames(data):
+    """[(ack, {id: value})] of the SETTINGS frames in a byte string (None when it cannot be split into frames)"""
+    if data is None:
+        return None
+    if data.startswith(wire.PREFACE):
+        data = data[24:]
+    try:
+        rfs = wire.split_frames(data)
+    except wire.WireError:
+        return None
+    out = []
+    for f in rfs:
+        if f['type'] != wire.SETTINGS or f['sid'] != 0:
+            continue
+        items = {}
+        if not (f['flags'] & 1) and len(f['payload']) % 6 == 0:
+            for j in range(0, len(f['payload']), 6):
+                k, v = struct.unpack('>HI', f['payload'][j:j + 6])
+                items[k] = v
+        out.append((bool(f['flags'] & 1), items))
+    return out
+
+
+def oracle_C11(run):
+    """per connection: a FIFO of the SETTINGS frames it has sent (read off its output) and the view the peer has
+    acknowledged.  Every SettingsAcknowledged must report exactly the changes of the oldest unacknowledged frame and
+    MAX_FRAME_SIZE must be in force right after; every valid received SETTINGS frame must be reported by exactly one
+    RemoteSettingsChanged with the right old and new values and answered by exactly one ACK; a raising update_settings
+    changes nothing.  A report that is explained by per-setting queues instead (the code's known behaviour, D8) is
+    raised under its own clause so that the known-findings file can list it."""
+    out = []
+    st = {}
+    for i, (op, ol, ml, obs) in enumerate(run.log):
+        if op['op'] == 'new':
+            st[op['c']] = {'inflight': [], 'view': None, 'pend': {}, 'taint': False, 'rview': {}}
+            continue
+        if obs is None:
+            continue
+        c = conn_of(op) if is_recv(op) else op.get('c', 0)
+        S = st.get(c)
+        if S is None:
+            continue
+        r = res(obs)
+        sb, sa = obs['snap_before'], obs['snap_after']
+        if S['view'] is None:
+            S['view'] = dict((k, v[0]) for k, v in sb['local'].items())
+        # a raising update_settings changes nothing
+        if op['op'] == 'update_settings' and r[0] != 'ok':
+            if obs['out'] != '+.' or sa['local'] != sb['local'] or sa['remote'] != sb['remote'] or sa['max_in'] != sb['max_in']:
+                out.append(fail('raising-update-settings-changed-something', i, res=obs['res']))
+        # received side first (ACKs answer frames sent earlier)
+        if is_recv(op):
+            acks = [e for e in obs['raw_events'] if type(e).__name__ == 'SettingsAcknowledged']
+            for e in acks:
+                rep = dict((int(k), (ch.original_value, ch.new_value)) for k, ch in e.changed_settings.items())
+                if S['taint'] or not S['inflight']:
+                    continue
+                H = S['inflight'].pop(0)
+                exp = dict((k, (S['view'].get(k), v)) for k, v in H.items())
+                # the per-setting-queue prediction (what the code is known to do)
+                perkey = {}
+                for k, q in S['pend'].items():
+                    if q:
+                        perkey[k] = (S['kview'].get(k), q[0])
+                same = lambda a, b: dict((k, v) for k, v in a.items() if v[0] != v[1]) == dict((k, v) for k, v in b.items() if v[0] != v[1])
+                if same(rep, exp) and all(k in H for k in rep):
+                    # the acknowledged INITIAL_WINDOW_SIZE is enforced on every stream from now on
+                    if 4 in H and S['view'].get(4) is not None and len(acks) == 1 and r[0] == 'ok':
+                        delta = H[4] - S['view'][4]
+                        for sid, t in sb['streams'].items():
+                            t2 = sa['streams'].get(sid)
+                            if t2 is not None and t[4] is not None and t2[4] != t[4] + delta:
+                                out.append(fail('acknowledged-window-not-applied-to-stream', i, sid=sid, state=t[0],
+                                                before=t[4], after=t2[4], delta=delta))
+                                break
+                elif rep == perkey:
+                    out.append(fail('ack-not-matched-to-its-frame', i, via='per-setting-queue', reported=sorted(rep.items()),
+                                    frame=sorted(H.items())))
+                    S['taint'] = True
+                else:
+                    out.append(fail('ack-reports-wrong-changes', i, reported=sorted(rep.items()), frame=sorted(H.items()),
+                                    expected=sorted(exp.items())))
+                    S['taint'] = True
+                S['view'].update(H)
+                for k in list(S['pend']):
+                    if S['pend'][k]:
+                        S['kview'][k] = S['pend'][k].pop(0)
+                if not S['taint'] and 5 in H and r[0] == 'ok' and e is acks[-1]:
+                    if sa['max_in'] != H[5]:
+                        out.append(fail('acknowledged-max-frame-size-not-in-force', i, want=H[5], got=sa['max_in']))
+            # received SETTINGS frames
+            data = obs.get('xfer_data') if op['op'] == 'xfer' else op.get('data')
+            rfs = raw_frames(data)
+            if rfs and len(rfs) == 1 and before_buf_empty(run, i, c) and sb['state'] != 'CLOSED' and r[0] == 'ok':
+                f = rfs[0]
+                if f['type'] == wire.SETTINGS and f['sid'] == 0 and not (f['flags'] & 1) and len(f['payload']) % 6 == 0:
+                    items = {}
+                    for j in range(0, len(f['payload']), 6):
+                        k, v = struct.unpack('>HI', f['payload'][j:j + 6])
+                        items[k] = v
+                    evs = [e for e in obs['raw_events'] if type(e).__name__ == 'RemoteSettingsChanged']
+                    if len(evs) != 1:
+                        out.append(fail('received-settings-not-reported-once', i, events=len(evs)))
+                    else:
+                        rep = dict((int(k), (ch.original_value, ch.new_value)) for k, ch in evs[0].changed_settings.items())
+                        exp = dict((k, (sb['remote'].get(k, [None])[0], v)) for k, v in items.items())
+                        if rep != exp:
+                            out.append(fail('remote-settings-change-misreported', i, reported=sorted(rep.items()), expected=sorted(exp.items())))
+                    sent = _settings_frames(obs.get('appended'))
+                    if sent is not None and [a for a, _ in sent] != [True]:
+                        out.append(fail('received-settings-not-acknowledged-once', i, sent=[a for a, _ in sent]))
+                    for k, v in items.items():
+                        if sa['remote'].get(k, [None])[0] != v:
+                            out.append(fail('received-setting-not-applied-at-once', i, setting=k, want=v, got=sa['remote'].get(k)))
+                            break
+                    if 5 in items and sa['max_out'] != items[5]:
+                        out.append(fail('peer-max-frame-size-not-in-force', i, want=items[5], got=sa['max_out']))
+        # SETTINGS frames this connection has just sent (taken from the calls: hyperframe writes identifiers modulo 256)
+        if 'kview' not in S:
+            S['kview'] = dict(S['view'])
+        if op['op'] in ('initiate_connection', 'initiate_upgrade') and r[0] == 'ok' and not S.get('seen_initial'):
+            S['seen_initial'] = True
+            # the initial frame announces the values already in force: nothing is pending for it
+            S['inflight'].append(dict())
+            sent = _settings_frames(obs.get('appended'))
+            cur = dict((k & 0xFF, v[0]) for k, v in sb['local'].items() if v[0] is not None)
+            if sent is not None and [it for a, it in sent if not a][:1] != [cur]:
+                out.append(fail('initial-settings-frame-differs-from-values-in-force', i, frame=repr(sent)[:200], current=sorted(cur.items())))
+        elif op['op'] == 'update_settings' and r[0] == 'ok':
+            items = dict(op['settings'])
+            S['inflight'].append(items)
+            for k, v in items.items():
+                S['pend'].setdefault(k, []).append(v)
+    return out
+
+
+# ---------------------------------------------------------------------------
 # C03  outbound flow control
 # ---------------------------------------------------------------------------
 class OutLedger(object):
@@ -1912,6 +2051,6 @@ def oracle_C25(run):
 
 ORACLES = {
     'C02': oracle_C02, 'C03': oracle_C03, 'C04': oracle_C04, 'C05': oracle_C05, 'C07': oracle_C07, 'C08': oracle_C08,
-    'C09': oracle_C09, 'C10': oracle_C10, 'C12': oracle_C12, 'C14': oracle_C14, 'C15': oracle_C15, 'C16': oracle_C16, 'C13': oracle_C13, 'C17': oracle_C17, 'C18': oracle_C18,
+    'C09': oracle_C09, 'C10': oracle_C10, 'C11': oracle_C11, 'C12': oracle_C12, 'C14': oracle_C14, 'C15': oracle_C15, 'C16': oracle_C16, 'C13': oracle_C13, 'C17': oracle_C17, 'C18': oracle_C18,
     'C19': oracle_C19, 'C21': oracle_C21, 'C22': oracle_C22, 'C24': oracle_C24, 'C25': oracle_C25, 'C26': oracle_C26, 'C27': oracle_C27, 'C29': oracle_C29,
 }
